@@ -107,7 +107,7 @@ var hostileValues = []any{
 	"!binary:", "!binary:AAA", "!binary:====", "!binary:A", "!binary:AQID!", "!binary:AQ==AQ==", "!null ", "!empty!", "!unknown", "#30", "#zz", "#", "CN=#", "CN=#13", "CN=#1303", "CN=#130141", "CN=#0500",
 	"\x00", "a\x00b", "\ufeff", strings.Repeat("A", 65536), strings.Repeat("1.", 300) + "1", "CN=a,CN=b=c", "=", ",", "CN=", "=v", "CN=a,,CN=b", "C=DE\\,CN=x",
 	core.RawScalar("&a [*a]"), core.RawScalar("*undefined"), core.RawScalar("<<: {x: 1}"), core.RawScalar("!!binary AQID"), core.RawScalar("2021-02-03"), core.RawScalar("0x7fffffffffffffff"), core.RawScalar("0o17"), core.RawScalar("1_000"),
-	"hash", "digitalSignature", "ip", "300.300.300.300", "-1.2.3.4", "1.2.3.4.5", "::1", "P-256", "RSA-8192x", "ECDSAwithSHA3",
+	"hash", "digitalSignature", "ip", "300.300.300.300", "-1.2.3.4", "1.2.3.4.5", "::1", "::ffff:1.2.3.4", "2001:db8::1", "fe80::1%eth0", "P-256", "RSA-8192x", "ECDSAwithSHA3",
 }
 
 type c20Subst struct {
